@@ -20,7 +20,8 @@
 (***************************************************************************)
 EXTENDS Forest
 
-CONSTANTS MaxN, MaxAdds
+CONSTANTS MaxN, MaxAdds,
+          UVariant   \* "ok"; negative demonstration of the undo algorithm: "noempty" (the overwritten empty root is not put back)
 VARIABLES n, live, m      \* m: function from positions to hashes
 mvars == <<n, live, m>>
 
@@ -106,4 +107,94 @@ RefMap ==
   IN  [p \in posns |-> NodeAtIn(nds, p)]
 
 MapRefines == m = RefMap
+(***************************************************************************)
+(* Undo of a block, as the map forest does it (design-level check of C06). *)
+(* The additions are taken back one by one, newest first: the parents the  *)
+(* leaf created are removed; where the leaf's subtree had moved up over an *)
+(* empty root it moves back down and the empty root is put back.  Then the *)
+(* deletions are taken back, in the reverse order of their removal: the    *)
+(* sibling subtree that had moved up into the parent's place moves back    *)
+(* down, the deleted subtree is rebuilt from the deleted leaf hashes (all  *)
+(* leaves below a detwinned target are targets) and the ancestors are      *)
+(* hashed again.  TLC checks that the map is again the one the reference   *)
+(* semantics prescribes for the state before the block (MapRefines on the  *)
+(* state reached by MUndo), for every block of every reachable state.      *)
+(***************************************************************************)
+VARIABLE prev
+uvars == <<n, live, m, prev>>
+
+\* the subtree topped by a moves down one row into the place of its child s
+MoveDownPos(a, s, q) ==
+  LET d == a.row - q.row
+      j == q.idx - a.idx * (2^d)
+  IN  Pos(q.row - 1, s.idx * (2^d) + j)
+MoveDownTo(f, a, s) ==
+  LET moving == {q \in DOMAIN f : q = a \/ Below(a, q)}
+      stay   == DOMAIN f \ moving
+  IN  [p \in stay \cup {MoveDownPos(a, s, q) : q \in moving} |->
+         IF p \in stay THEN f[p] ELSE f[CHOOSE q \in moving : MoveDownPos(a, s, q) = p]]
+
+TrailingOnes(y) == CHOOSE t \in 0..(MAXH + 1) : (\A h \in 0..(t - 1) : Bit(y, h)) /\ ~Bit(y, t)
+
+\* when the leaf of slot y was added to the forest that had x leaves after the
+\* deletions (live set lvd), the tree of height g was one of the original
+\* trees and had no survivors
+EmptyAt(x, lvd, y, g) == Bit(y, g) /\ TreeStart(y, g) + 2^g <= x /\ ~Alive(lvd, TreeStart(y, g), 2^g)
+
+RECURSIVE Unclimb(_, _, _, _, _, _)
+Unclimb(f, x, lvd, y, p, h) ==
+  IF h = 0 THEN Restrict(f, DOMAIN f \ {p})
+  ELSE IF EmptyAt(x, lvd, y, h - 1)
+       THEN Unclimb(IF UVariant = "noempty" THEN MoveDownTo(f, p, RChild(p))
+                    ELSE Put(MoveDownTo(f, p, RChild(p)), LChild(p), Empty), x, lvd, y, RChild(p), h - 1)
+       ELSE Unclimb(Restrict(f, DOMAIN f \ {p}), x, lvd, y, RChild(p), h - 1)
+UndoAddOne(f, x, lvd, y) ==
+  LET t == TrailingOnes(y) IN Unclimb(f, x, lvd, y, RootPos(y + 1, t), t)
+
+RECURSIVE UndoAddMany(_, _, _, _)
+UndoAddMany(f, x, lvd, k) == IF k = 0 THEN f ELSE UndoAddMany(UndoAddOne(f, x, lvd, x + k - 1), x, lvd, k - 1)
+
+\* the nodes at and below a deleted position, rebuilt from the deleted leaves
+RECURSIVE CloseUp(_)
+CloseUp(g) ==
+  IF \E p \in DOMAIN g : IsLeft(p) /\ Sib(p) \in DOMAIN g /\ Par(p) \notin DOMAIN g
+  THEN LET p == CHOOSE q \in DOMAIN g : IsLeft(q) /\ Sib(q) \in DOMAIN g /\ Par(q) \notin DOMAIN g
+       IN  CloseUp(Put(g, Par(p), H(g[p], g[Sib(p)])))
+  ELSE g
+Rebuilt(tg, del) ==
+  LET under == {p \in DOMAIN tg : p = del \/ Below(del, p)}
+      g     == CloseUp([p \in under |-> tg[p]])
+  IN  [p \in {q \in DOMAIN g : q = del \/ Below(del, q)} |-> g[p]]
+
+Merge(f, g) == [p \in DOMAIN f \cup DOMAIN g |-> IF p \in DOMAIN g THEN g[p] ELSE f[p]]
+
+UndoRemoveSingle(f, x, tg, del) ==
+  IF IsRoot(x, del) THEN Merge(Restrict(f, DOMAIN f \ {del}), Rebuilt(tg, del))
+  ELSE Rehash(Merge(MoveDownTo(f, Par(del), Sib(del)), Rebuilt(tg, del)), x, del)
+
+RECURSIVE UndoRemoveAll(_, _, _, _)
+UndoRemoveAll(f, x, tg, ts) ==
+  IF ts = <<>> THEN f
+  ELSE UndoRemoveAll(UndoRemoveSingle(f, x, tg, ts[Len(ts)]), x, tg, SubSeq(ts, 1, Len(ts) - 1))
+
+MUInit == MInit /\ prev = <<>>
+
+MUBlock == /\ MBlock
+           /\ prev' = [n |-> n, live |-> live]
+
+MUndo ==
+  /\ prev # <<>>
+  /\ LET x   == prev.n
+         D   == prev.live \ live
+         lvd == prev.live \ D
+         k   == n - x
+         nds == Nodes(x, prev.live)
+         tg  == [p \in {PosOfIn(nds, s) : s \in D} |-> Leaf((CHOOSE nd \in nds : NodePos(nd) = p).slot)]
+         T   == DeTwin(DOMAIN tg)
+         f1  == UndoAddMany(m, x, lvd, k)
+     IN  m' = UndoRemoveAll(f1, x, tg, SortPos(T))
+  /\ n' = prev.n /\ live' = prev.live /\ prev' = <<>>
+
+MUSpec == MUInit /\ [][MUBlock \/ MUndo]_uvars
+
 =============================================================================
